@@ -3249,6 +3249,199 @@ pub proof fn lemma_assoc_publish5(f: Seq<u8>, v1: Seq<u8>, top: Seq<u8>, idp: Se
 //@end
 
 
+
+// ---------------------------------------------------------------------------------------------------------------------------------
+// MQTT 5 SUBSCRIBE on the wire (C02), OASIS 5.0 section 3.8. The Subscription Identifier is a Variable Byte Integer (3.8.2.1.2) - the
+// contract is the standard's; the code writes four bytes, which is the open finding F-SUBID (the obligation holds when no identifier is present).
+//@const gneiss-mqtt/src/mqtt/utils.rs SUBSCRIPTION_OPTIONS_NO_LOCAL_MASK
+//@const gneiss-mqtt/src/mqtt/utils.rs SUBSCRIPTION_OPTIONS_RETAIN_AS_PUBLISHED_MASK
+//@const gneiss-mqtt/src/mqtt/utils.rs SUBSCRIPTION_OPTIONS_RETAIN_HANDLING_SHIFT
+pub open spec fn rh_num(t: RetainHandlingType) -> u8 { match t { RetainHandlingType::SendOnSubscribe => 0u8, RetainHandlingType::SendOnSubscribeIfNew => 1u8, RetainHandlingType::DontSend => 2u8 } }
+// 3.8.3.1: bits 1-0 maximum QoS, bit 2 No Local, bit 3 Retain As Published, bits 5-4 Retain Handling, bits 7-6 reserved 0
+pub open spec fn sub_options_byte(s: Subscription) -> u8 {
+    (qos_num(s.qos) + (if s.no_local { 4int } else { 0 }) + (if s.retain_as_published { 8int } else { 0 }) + 16 * rh_num(s.retain_handling_type)) as u8
+}
+//@fn gneiss-mqtt/src/mqtt/subscribe.rs compute_subscription_options_byte5 props=C02
+    ensures r == sub_options_byte(*subscription),
+//@@at bodystart
+    proof {
+        assert(1u8 << 2 == 4u8) by (bit_vector);
+        assert(1u8 << 3 == 8u8) by (bit_vector);
+        assert(forall|q: u8| q <= 2 ==> #[trigger] (q | 4u8) == q + 4) by (bit_vector);
+        assert(forall|b: u8| (b <= 2 || (4 <= b && b <= 6)) ==> #[trigger] (b | 8u8) == b + 8) by (bit_vector);
+        assert(forall|b: u8, t: u8| b < 16 && t <= 2 ==> #[trigger] (b | (t << 4u8)) == b + 16 * t) by (bit_vector);
+        assert(subscription.qos as u8 == qos_num(subscription.qos));
+        assert(subscription.retain_handling_type as u8 == rh_num(subscription.retain_handling_type));
+        assert(SUBSCRIPTION_OPTIONS_NO_LOCAL_MASK == 4u8) by (compute);
+        assert(SUBSCRIPTION_OPTIONS_RETAIN_AS_PUBLISHED_MASK == 8u8) by (compute);
+    }
+//@end
+
+pub open spec fn subscribe_props_len(p: SubscribePacket) -> nat {
+    opt_user_props_len(p.user_properties) + (match p.subscription_identifier { Some(id) => 1 + vli_len(id as nat), None => 0 })
+}
+pub open spec fn subscribe_remaining_len(p: SubscribePacket) -> nat {
+    2 + vli_len(subscribe_props_len(p)) + subscribe_props_len(p) + subs_len(p.subscriptions@, p.subscriptions@.len())
+}
+pub open spec fn subscribe5_sendable(p: SubscribePacket) -> bool {
+    &&& ups_ok(p.user_properties) && subs_ok(p.subscriptions@) && count_ok(p.subscriptions@.len())
+    &&& (p.user_properties matches Some(ps) ==> count_ok(ps@.len()))
+    &&& (p.subscription_identifier matches Some(id) ==> 1 <= id <= 268435455)
+    &&& subscribe_remaining_len(p) <= 268435455
+}
+// the contract the validate unit states from the standard (there it fails when an identifier is present: finding F-SUBID); a signature-only stub here
+//@fn gneiss-mqtt/src/mqtt/subscribe.rs compute_subscribe_packet_length_properties5 stub
+    requires ups_ok(packet.user_properties), subs_ok(packet.subscriptions@), count_ok(packet.subscriptions@.len()),
+        packet.user_properties matches Some(ps) ==> count_ok(ps@.len()),
+    ensures
+        r matches Ok((rem, props)) ==> props == subscribe_props_len(*packet) && rem == subscribe_remaining_len(*packet) && rem <= 268435455 && props <= 268435455,
+        (subscribe_remaining_len(*packet) <= 268435455) ==> r is Ok,
+//@end
+//@fn gneiss-mqtt/src/mqtt/subscribe.rs get_subscribe_packet_user_property props=C02
+    requires packet matches MqttPacket::Subscribe(p) && p.user_properties matches Some(ups) && index < ups@.len(),
+    ensures packet matches MqttPacket::Subscribe(p) && p.user_properties matches Some(ups) && *r == ups@[index as int],
+//@end
+pub open spec fn subid_piece(o: Option<u32>) -> Seq<u8> { match o { Some(id) => seq![11u8] + vli(id as nat), None => Seq::<u8>::empty() } }
+pub open spec fn subs5_bytes(v: Seq<Subscription>, n: nat) -> Seq<u8> decreases n {
+    if n == 0 { Seq::<u8>::empty() } else { subs5_bytes(v, (n - 1) as nat) + be16_bytes(blen(v[n - 1].topic_filter@) as u16) + str_bytes(v[n - 1].topic_filter@) + seq![sub_options_byte(v[n - 1])] }
+}
+pub open spec fn subscribe5_bytes(p: SubscribePacket) -> Seq<u8> {
+    seq![0x82u8] + vli(subscribe_remaining_len(p)) + be16_bytes(p.packet_id) + vli(subscribe_props_len(p)) + subid_piece(p.subscription_identifier) + ups_piece(p.user_properties)
+    + subs5_bytes(p.subscriptions@, p.subscriptions@.len())
+}
+pub proof fn lemma_g_regroup2(s0: Seq<EncodingStep>, cur: Seq<EncodingStep>, pre: Seq<u8>, b0: Seq<u8>, b1: Seq<u8>, pk0: MqttPacket)
+    requires g_inv(s0, cur, pre + b0 + b1, pk0),
+    ensures g_inv(s0, cur, pre + (b0 + b1), pk0),
+{ assert(pre + b0 + b1 =~= pre + (b0 + b1)); }
+pub proof fn lemma_g_regroup_sub5(s0: Seq<EncodingStep>, cur: Seq<EncodingStep>, pre: Seq<u8>, v: Seq<Subscription>, n: nat, pk0: MqttPacket)
+    requires n < v.len(), g_inv(s0, cur, pre + subs5_bytes(v, n) + be16_bytes(blen(v[n as int].topic_filter@) as u16) + str_bytes(v[n as int].topic_filter@) + seq![sub_options_byte(v[n as int])], pk0),
+    ensures g_inv(s0, cur, pre + subs5_bytes(v, n + 1), pk0),
+{
+    assert(pre + subs5_bytes(v, n) + be16_bytes(blen(v[n as int].topic_filter@) as u16) + str_bytes(v[n as int].topic_filter@) + seq![sub_options_byte(v[n as int])]
+        =~= pre + (subs5_bytes(v, n) + be16_bytes(blen(v[n as int].topic_filter@) as u16) + str_bytes(v[n as int].topic_filter@) + seq![sub_options_byte(v[n as int])]));
+}
+pub proof fn lemma_lead_empty7(a: Seq<u8>, b: Seq<u8>, c: Seq<u8>, d: Seq<u8>, e: Seq<u8>, f: Seq<u8>, g: Seq<u8>)
+    ensures Seq::<u8>::empty() + a + b + c + d + e + f + g == a + b + c + d + e + f + g,
+{ assert(Seq::<u8>::empty() + a + b + c + d + e + f + g =~= a + b + c + d + e + f + g); }
+
+//@fn gneiss-mqtt/src/mqtt/subscribe.rs write_subscribe_encoding_steps5 props=C02 desugar fnptr_opaque expand=gneiss-mqtt/src/encode.rs:encode_user_properties+gneiss-mqtt/src/encode.rs:encode_user_property
+//@@attr #[verifier::rlimit(100)]
+//@@attr #[verifier::spinoff_prover]
+    requires
+        subscribe5_sendable(*packet),          // send-time validation (C16, validate unit)
+    ensures
+        r is Ok,
+        forall|pk: MqttPacket| is_subscribe_of(pk, *packet) && steps_wf(old(steps)@, pk) ==> #[trigger] steps_wf(final(steps)@, pk),
+        forall|pk: MqttPacket| is_subscribe_of(pk, *packet) ==> #[trigger] flat(final(steps)@, pk) == flat(old(steps)@, pk) + subscribe5_bytes(*packet),
+//@@finding F-SUBID
+        proof { assume(packet.subscription_identifier is None); }
+//@@at bodystart
+    let ghost s0 = steps@;
+    let ghost mut cur = steps@;
+    let ghost mut acc = Seq::<u8>::empty();
+    let ghost mut pre5 = Seq::<u8>::empty();
+    let ghost mut pre6 = Seq::<u8>::empty();
+    let ghost pk0 = MqttPacket::Subscribe(*packet);
+    proof { lemma_g_init(s0, pk0); }
+//@@at after "encode_integral_expression!(steps, Uint8, SUBSCRIBE_FIRST_BYTE);"
+    proof {
+        assert(SUBSCRIBE_FIRST_BYTE == 0x82u8) by (compute);
+        { let x = EncodingStep::Uint8(0x82u8); lemma_g_whole_int(x, pk0); lemma_g_push1(s0, cur, x, acc, int_bytes(x), pk0); cur = cur.push(x); acc = acc + int_bytes(x); }
+        assert(steps@ == cur);
+    }
+//@@at after "encode_integral_expression!(steps, Vli, total_remaining_length);"
+    proof {
+        { let x = EncodingStep::Vli(total_remaining_length); lemma_g_whole_int(x, pk0); lemma_g_push1(s0, cur, x, acc, int_bytes(x), pk0); cur = cur.push(x); acc = acc + int_bytes(x); }
+        assert(steps@ == cur);
+    }
+//@@at after "encode_integral_expression!(steps, Uint16, packet.packet_id);"
+    proof {
+        { let x = EncodingStep::Uint16(packet.packet_id); lemma_g_whole_int(x, pk0); lemma_g_push1(s0, cur, x, acc, int_bytes(x), pk0); cur = cur.push(x); acc = acc + int_bytes(x); }
+        assert(steps@ == cur);
+    }
+//@@at after "encode_integral_expression!(steps, Vli, subscribe_property_length);"
+    proof {
+        { let x = EncodingStep::Vli(subscribe_property_length); lemma_g_whole_int(x, pk0); lemma_g_push1(s0, cur, x, acc, int_bytes(x), pk0); cur = cur.push(x); acc = acc + int_bytes(x); }
+        assert(steps@ == cur);
+    }
+//@@at after "encode_optional_property!(steps, Uint32, PROPERTY_KEY_SUBSCRIPTION_IDENTIFIER, packet.subscription_identifier);"
+    proof {
+        let pre = acc;
+        if packet.subscription_identifier is Some {
+            { let x = EncodingStep::Uint8(11u8); lemma_g_whole_int(x, pk0); lemma_g_push1(s0, cur, x, acc, int_bytes(x), pk0); cur = cur.push(x); acc = acc + int_bytes(x); }
+            { let x = EncodingStep::Uint32(packet.subscription_identifier->Some_0); lemma_g_whole_int(x, pk0); lemma_g_push1(s0, cur, x, acc, int_bytes(x), pk0); cur = cur.push(x); acc = acc + int_bytes(x); }
+            // the standard: a Variable Byte Integer follows the identifier 0x0B (fails on the code as it is: F-SUBID)
+            lemma_g_regroup2(s0, cur, pre, seq![11u8], vli(packet.subscription_identifier->Some_0 as nat), pk0);
+        } else { lemma_g_regroup0(s0, cur, pre, pk0); }
+        assert(steps@ == cur);
+        acc = pre + subid_piece(packet.subscription_identifier); pre5 = acc;
+    }
+//@@at before "let mut verif_enum0: usize = 0;"
+            proof {
+                lemma_g_regroup0(s0, cur, pre5, pk0);
+            }
+//@@loop 0 iter=it
+            invariant
+                packet.user_properties is Some, properties@ == packet.user_properties->Some_0@, it.seq().len() == properties@.len(), count_ok(properties@.len()),
+                ups_ok(packet.user_properties), pk0 == MqttPacket::Subscribe(*packet),
+                verif_enum0 == it.index@,
+                cur == steps@,
+                g_inv(s0, steps@, pre5 + ups_bytes(properties@, it.index@ as nat), pk0),
+                it.index@ == it.seq().len() ==> g_inv(s0, steps@, pre5 + ups_piece(packet.user_properties), pk0),
+//@@at before "verif_enum0 += 1;"
+                proof { assert(it.index@ < it.seq().len()); }
+//@@bodyend_of_loop 0
+                proof {
+                    let n = it.index@;
+                    let u = properties@[n];
+                    assert(*user_property == u);
+                    assert(up_ok(u));
+                    acc = pre5 + ups_bytes(properties@, n as nat);
+                    { let x = EncodingStep::Uint8(38u8); lemma_g_whole_int(x, pk0); lemma_g_push1(s0, cur, x, acc, int_bytes(x), pk0); cur = cur.push(x); acc = acc + int_bytes(x); }
+                    { let x = EncodingStep::Uint16(blen(u.name@) as u16); lemma_g_whole_int(x, pk0); lemma_g_push1(s0, cur, x, acc, int_bytes(x), pk0); cur = cur.push(x); acc = acc + int_bytes(x); }
+                    { let y = steps@[steps@.len() - 3]; assert(g_whole(y, str_bytes(u.name@), pk0)) by { reveal(g_whole); assert(get_subscribe_packet_user_property.requires((&pk0, i))); } assert(step_off(y) == 0); lemma_g_push1(s0, cur, y, acc, str_bytes(u.name@), pk0); cur = cur.push(y); acc = acc + str_bytes(u.name@); }
+                    { let x = EncodingStep::Uint16(blen(u.value@) as u16); lemma_g_whole_int(x, pk0); lemma_g_push1(s0, cur, x, acc, int_bytes(x), pk0); cur = cur.push(x); acc = acc + int_bytes(x); }
+                    { let y = steps@[steps@.len() - 1]; assert(g_whole(y, str_bytes(u.value@), pk0)) by { reveal(g_whole); assert(get_subscribe_packet_user_property.requires((&pk0, i))); } assert(step_off(y) == 0); lemma_g_push1(s0, cur, y, acc, str_bytes(u.value@), pk0); cur = cur.push(y); acc = acc + str_bytes(u.value@); }
+                    assert(steps@ == cur);
+                    lemma_g_regroup_up(s0, cur, pre5, properties@, n as nat, pk0);
+                }
+//@@at before "let subscriptions = &packet.subscriptions;"
+    proof {
+        if packet.user_properties is None { lemma_g_regroup0(s0, cur, pre5, pk0); }
+        acc = pre5 + ups_piece(packet.user_properties); pre6 = acc;
+        lemma_g_regroup0(s0, cur, pre6, pk0);
+    }
+//@@loop 1 iter=it
+        invariant
+            subscriptions@ == packet.subscriptions@, it.seq().len() == packet.subscriptions@.len(), count_ok(packet.subscriptions@.len()), subs_ok(packet.subscriptions@),
+            pk0 == MqttPacket::Subscribe(*packet),
+            verif_enum1 == it.index@,
+            cur == steps@,
+            g_inv(s0, steps@, pre6 + subs5_bytes(packet.subscriptions@, it.index@ as nat), pk0),
+            it.index@ == it.seq().len() ==> g_inv(s0, steps@, pre6 + subs5_bytes(packet.subscriptions@, packet.subscriptions@.len()), pk0),
+//@@at before "verif_enum1 += 1;"
+            proof { assert(it.index@ < it.seq().len()); }
+//@@at after "encode_integral_expression!(steps, Uint8, compute_subscription_options_byte5(subscription));"
+            proof {
+                let n = it.index@;
+                assert(*subscription == packet.subscriptions@[n]);
+                acc = pre6 + subs5_bytes(packet.subscriptions@, n as nat);
+                { let x = EncodingStep::Uint16(blen(subscription.topic_filter@) as u16); lemma_g_whole_int(x, pk0); lemma_g_push1(s0, cur, x, acc, int_bytes(x), pk0); cur = cur.push(x); acc = acc + int_bytes(x); }
+                { let y = steps@[steps@.len() - 2]; assert(g_whole(y, str_bytes(subscription.topic_filter@), pk0)) by { reveal(g_whole); assert(get_subscribe_packet_topic_filter.requires((&pk0, i))); } assert(step_off(y) == 0); lemma_g_push1(s0, cur, y, acc, str_bytes(subscription.topic_filter@), pk0); cur = cur.push(y); acc = acc + str_bytes(subscription.topic_filter@); }
+                { let x = EncodingStep::Uint8(sub_options_byte(*subscription)); lemma_g_whole_int(x, pk0); lemma_g_push1(s0, cur, x, acc, int_bytes(x), pk0); cur = cur.push(x); acc = acc + int_bytes(x); }
+                assert(steps@ == cur);
+                lemma_g_regroup_sub5(s0, cur, pre6, packet.subscriptions@, n as nat, pk0);
+            }
+//@@at before "Ok(())"
+    proof {
+        acc = pre6 + subs5_bytes(packet.subscriptions@, packet.subscriptions@.len());
+        lemma_g_final(s0, cur, acc, pk0);
+        lemma_lead_empty7(seq![0x82u8], vli(subscribe_remaining_len(*packet)), be16_bytes(packet.packet_id), vli(subscribe_props_len(*packet)), subid_piece(packet.subscription_identifier), ups_piece(packet.user_properties), subs5_bytes(packet.subscriptions@, packet.subscriptions@.len()));
+        assert(acc == subscribe5_bytes(*packet));
+        assert forall|pk: MqttPacket| is_subscribe_of(pk, *packet) implies pk == pk0 by { }
+    }
+//@end
+
 // ---- MQTT 5 dispatch: PUBLISH and PINGREQ are under contract; the other writers are signature-only stubs with NO postcondition
 #[verifier::external_body] pub fn write_connect_encoding_steps5(packet: &ConnectPacket, context: &EncodingContext, steps: &mut VecDeque<EncodingStep>) -> GneissResult<()> { unimplemented!() }
 #[verifier::external_body] pub fn write_connack_encoding_steps5(packet: &ConnackPacket, context: &EncodingContext, steps: &mut VecDeque<EncodingStep>) -> GneissResult<()> { unimplemented!() }
@@ -3256,7 +3449,6 @@ pub proof fn lemma_assoc_publish5(f: Seq<u8>, v1: Seq<u8>, top: Seq<u8>, idp: Se
 #[verifier::external_body] pub fn write_pubrec_encoding_steps5(packet: &PubrecPacket, context: &EncodingContext, steps: &mut VecDeque<EncodingStep>) -> GneissResult<()> { unimplemented!() }
 #[verifier::external_body] pub fn write_pubrel_encoding_steps5(packet: &PubrelPacket, context: &EncodingContext, steps: &mut VecDeque<EncodingStep>) -> GneissResult<()> { unimplemented!() }
 #[verifier::external_body] pub fn write_pubcomp_encoding_steps5(packet: &PubcompPacket, context: &EncodingContext, steps: &mut VecDeque<EncodingStep>) -> GneissResult<()> { unimplemented!() }
-#[verifier::external_body] pub fn write_subscribe_encoding_steps5(packet: &SubscribePacket, context: &EncodingContext, steps: &mut VecDeque<EncodingStep>) -> GneissResult<()> { unimplemented!() }
 #[verifier::external_body] pub fn write_suback_encoding_steps5(packet: &SubackPacket, context: &EncodingContext, steps: &mut VecDeque<EncodingStep>) -> GneissResult<()> { unimplemented!() }
 #[verifier::external_body] pub fn write_unsuback_encoding_steps5(packet: &UnsubackPacket, context: &EncodingContext, steps: &mut VecDeque<EncodingStep>) -> GneissResult<()> { unimplemented!() }
 #[verifier::external_body] pub fn write_disconnect_encoding_steps5(packet: &DisconnectPacket, context: &EncodingContext, steps: &mut VecDeque<EncodingStep>) -> GneissResult<()> { unimplemented!() }
@@ -3266,12 +3458,13 @@ pub open spec fn wire5(pk: MqttPacket, res: OutboundAliasResolution) -> Option<S
     match pk {
         MqttPacket::Publish(p) => Some(publish5_bytes(p, res)),
         MqttPacket::Unsubscribe(p) => Some(unsubscribe5_bytes(p)),
+        MqttPacket::Subscribe(p) => Some(subscribe5_bytes(p)),
         MqttPacket::Pingreq(_) => Some(seq![0xC0u8, 0u8]),
         _ => None,
     }
 }
 pub open spec fn sendable5(pk: MqttPacket, res: OutboundAliasResolution) -> bool {
-    match pk { MqttPacket::Publish(p) => publish5_sendable(p, res), MqttPacket::Unsubscribe(p) => unsubscribe5_sendable(p), _ => true }
+    match pk { MqttPacket::Publish(p) => publish5_sendable(p, res), MqttPacket::Unsubscribe(p) => unsubscribe5_sendable(p), MqttPacket::Subscribe(p) => subscribe5_sendable(p), _ => true }
 }
 //@fn gneiss-mqtt/src/encode.rs write_encoding_steps5 props=C02,C17
     requires sendable5(*mqtt_packet, context.outbound_alias_resolution),
